@@ -54,7 +54,9 @@ def _known_classes(prop):
         k = json.load(open(os.path.join(ROOT, "known_findings.json")))
     except (OSError, ValueError):
         return []
-    return [f for f in k.get("findings", []) if f.get("property") == prop and f.get("bounded_class")]
+    # class names are unique across properties; a stand-in shared by several properties must not
+    # re-report under one of them what is listed (and printed as KNOWN-FINDING) under another
+    return [f for f in k.get("findings", []) if f.get("bounded_class")]
 
 
 NONTRIVIAL_RULES = {
@@ -70,8 +72,12 @@ NONTRIVIAL_RULES = {
 }
 
 
-def stand_in(prop, name, title, function, bound_text):
-    """one bounded obligation (run by contracts/bounded_worker.py:CHECKS[name])"""
+def stand_in(props, name, title, function, bound_text, primary=True):
+    """one bounded obligation (run by contracts/bounded_worker.py:CHECKS[name]); `props`: the property
+    it stands in for first, then properties that merely also run it"""
+    if isinstance(props, str):
+        props = (props,)
+    prop = props[0]
     def run(tier, seed):
         t = time.time()
         res = _run_workers(name, tier)
@@ -91,6 +97,7 @@ def stand_in(prop, name, title, function, bound_text):
                "where": function, "function": function, "time_s": round(time.time() - t, 2), "ground": cases,
                "info": {"known_finding_hits": by_known, "failures": new[:5]},
                "evaluations": cases, "distinct_nontrivial": nontrivial, "samples": samples,
+               "primary_for": prop if primary else None,
                "rule": NONTRIVIAL_RULES.get(name, "")}
         if errs:
             rec["status"] = "unknown"
@@ -107,19 +114,25 @@ def stand_in(prop, name, title, function, bound_text):
             rec["status"] = "unsat"
         return [rec]
     run.__name__ = f"bounded_{name}"
-    register(prop)(run)
+    _CACHE = {}
+
+    def cached(tier, seed):
+        # several properties share one stand-in: known-finding classes are per primary property
+        return run(tier, seed)
+    cached.__name__ = run.__name__
+    register(*props)(cached)
     return run
 
 
-stand_in("C14", "join", "base.join(ref) == RFC 3986 5.2.2 (non-strict) on the encoded components",
+stand_in(("C14", "C02"), "join", "base.join(ref) == RFC 3986 5.2.2 (non-strict) on the encoded components",
          "yarl._url:URL.join",
          "bases and references built from scheme in {http, '', other}, authority in {none, h}, paths of <= 3 segments "
          "over {a, b.c, '.', '..', '', %2e}, query/fragment in {absent, present}")
-stand_in("C13", "path_algebra", "raw_parts / name / suffix / '/' / joinpath / with_name / with_suffix / parent identities",
+stand_in(("C13", "C11"), "path_algebra", "raw_parts / name / suffix / '/' / joinpath / with_name / with_suffix / parent identities",
          "yarl._url:URL._make_child",
          "bases over {absolute, rooted, rootless, empty} x paths of <= 3 (quick) / 4 (thorough) segments over {a, b.c, '', %2F, e-acute} x "
          "segment texts over the same kinds plus dot segments and multi-segment texts")
-stand_in("C06", "decode", "decoded accessors == reference UTF-8 percent-decoding; supplied decoded values read back",
+stand_in(("C06", "C05"), "decode", "decoded accessors == reference UTF-8 percent-decoding; supplied decoded values read back",
          "yarl._quoting_py:_Unquoter.__call__",
          "all strings of length <= 5 (quick) / 6 (thorough) over {%, 4, 1, C, 3, A, 9, +, a, /, e-acute} per component, "
          "plus escape runs of every 1-4 byte UTF-8 shape incl. overlong, truncated and surrogate encodings")
@@ -127,7 +140,17 @@ stand_in("C18", "human_repr", "URL(u.human_repr()) == u and printable text is sh
          "yarl._url:URL.human_repr",
          "URLs built from decoded components over texts of <= 2 characters from the reserved delimiters, '%', space, "
          "a control character, non-ASCII BMP and non-BMP characters, per component; hosts in {IDN, IPv4, IPv6}")
-stand_in("C03", "fixed_point", "URL(str(u)) has the same string form and the same components as u",
+stand_in(("C03", "C15"), "fixed_point", "URL(str(u)) has the same string form and the same components as u",
          "yarl._url:encode_url",
          "URL strings composed of scheme x userinfo x host x port x path x query x fragment alternatives (see "
          "contracts/bounded_worker.py:fixed_point_cases) and the results of one modifier applied to each")
+stand_in(("C12",), "query_algebra", "with_query / extend_query / update_query / without_query_params == multi-dict algebra on pairs",
+         "yarl._url:URL.update_query",
+         "6 existing queries (duplicates, blanks, reserved characters; thorough: +40 single-pair queries) x 10 keys x 9 values x "
+         "{dict, pairs, MultiDict, dict of list, int, float, kwargs, str} + None and rejected values", primary=False)
+stand_in(("C19", "C03", "C09"), "build", "URL.build results are usable objects and fixed points; only ValueError/TypeError",
+         "yarl._url:URL.build",
+         "scheme in {'', http, x} x 12 authority / host alternatives (incl. host-less ones) x 5 paths", primary=False)
+NONTRIVIAL_RULES["query_algebra"] = ("every (existing query, key, value) triple once per back end, each with six argument forms; "
+                                     "non-trivial when the existing query is not empty")
+NONTRIVIAL_RULES["build"] = "every argument combination once per back end; non-trivial when build() returns a URL"
